@@ -5,20 +5,33 @@ import (
 	"go/ast"
 	"go/token"
 	"go/types"
+	"path/filepath"
 	"sort"
 
+	"golang.org/x/tools/go/cfg"
 	"golang.org/x/tools/go/packages"
 
 	"osmcheck/core"
 )
 
-// pbfModel is the PBF pipeline model of DESIGN §3.1, derived from osmpbf/decode.go:
+// pbfModel is the PBF pipeline model of DESIGN §3.1, derived from package osmpbf:
 // the spawner, its go statements and their roles, the functions each role reaches,
 // the channels with their operations, the cancellable context and the wait group.
 //
-// Unexported anchors used (class 3 of DESIGN §2.2): type `decoder` (found as the
-// receiver of the method that contains go statements and is reached from Scanner.Scan),
-// type `dataDecoder` (the type of the value allocated in the worker-spawning loop).
+// Everything is found by ROLE, never by name or by file:
+//   - the spawner is the (root) function that contains go statements (go statements may also sit in
+//     helpers it calls);
+//   - a goroutine body is a function literal (`go func(){...}()`) or the declaration of the function
+//     started (`go dec.method(args)`); in the second case goSite.lit is a literal synthesised from the
+//     declaration (same Type and Body nodes), so that code written against closures keeps working;
+//   - worker = go statement executed in a loop; reader = goroutine that reaches io.ReadFull; serializer = the
+//     remaining one; consumer = what the exported API reaches;
+//   - the decoder type is the receiver of the spawner; its context / cancel func / wait group fields are
+//     found by type; `next` is the decoder method with results (osm.Object, error) reachable from
+//     Scanner.Scan; the per-worker decoder type is the receiver of decodeEntry(), the function with results
+//     ([]osm.Object, error) closest to the worker goroutine.
+//
+// Unexported anchors used (class 3 of DESIGN §2.2): none by name.
 type pbfModel struct {
 	p    *core.Program
 	pk   *packages.Package
@@ -26,40 +39,141 @@ type pbfModel struct {
 
 	scannerT *types.Named
 	decoderT *types.Named
-	ddT      *types.Named // dataDecoder
+	ddT      *types.Named // per-worker decoder (dataDecoder)
 
-	start *FuncInfo // the spawner
-	next  *FuncInfo // decoder method called by Scanner.Scan to fetch an object
+	start *FuncInfo // the (root) spawner
+	next  *FuncInfo // decoder method called (possibly through helpers) by Scanner.Scan to fetch an object
 	gos   []*goSite
 
 	ctxField    *types.Var // decoder field holding the cancellable context
 	cancelField *types.Var
 	wgField     *types.Var
 
-	units map[ast.Node]*unit // FuncDecl or go-closure FuncLit -> unit
+	units map[ast.Node]*unit // FuncDecl or goroutine-body FuncLit -> unit
 	// roles: "consumer", "worker", "reader", "serializer"
 	errs []string
+
+	funcs   map[*types.Func]*FuncInfo      // every function declared with a body in the package
+	byDecl  map[*types.Func]*unit          // the unit that executes the body of a declared function
+	sites   map[*types.Func][]*pbfCallSite // static call sites (plain, go, defer) of declared functions
+	goCalls map[*ast.CallExpr]*goSite      // the call expression of every go statement
+	entry   *FuncInfo                      // cache of decodeEntry()
+	view    *pbfPkgView
+	opsMemo []*chanOp
 }
 
-// goSite is one `go func(){...}()` statement of the spawner.
+// pbfPkgView is what the CFG helpers and the tracer need to know about one package: its declared functions,
+// cached control-flow graphs, and the functions that are goroutine bodies (never entered by a synchronous trace).
+type pbfPkgView struct {
+	pk     *packages.Package
+	fset   *token.FileSet
+	info   *types.Info
+	funcs  map[*types.Func]*FuncInfo
+	cfgs   map[*ast.BlockStmt]*pbfCFG
+	goBody map[*types.Func]bool
+	pars   map[*ast.File]map[ast.Node]ast.Node
+}
+
+var pbfViewCache = map[*packages.Package]*pbfPkgView{}
+
+// newPkgView builds (once per package) the view of a repository package.
+func newPkgView(pk *packages.Package) *pbfPkgView {
+	if v, ok := pbfViewCache[pk]; ok {
+		return v
+	}
+	v := &pbfPkgView{pk: pk, fset: pk.Fset, info: pk.TypesInfo, funcs: map[*types.Func]*FuncInfo{}, cfgs: map[*ast.BlockStmt]*pbfCFG{}, goBody: map[*types.Func]bool{},
+		pars: map[*ast.File]map[ast.Node]ast.Node{}}
+	for _, fi := range allFuncs(pk) {
+		v.funcs[fi.Obj] = fi
+	}
+	pbfViewCache[pk] = v
+	return v
+}
+
+// parents returns the parent map of the file that declares fi.
+func (v *pbfPkgView) parents(fi *FuncInfo) map[ast.Node]ast.Node {
+	var file *ast.File
+	for _, f := range v.pk.Syntax {
+		if f.Pos() <= fi.Decl.Pos() && fi.Decl.Pos() <= f.End() {
+			file = f
+		}
+	}
+	if file == nil {
+		return map[ast.Node]ast.Node{}
+	}
+	if m, ok := v.pars[file]; ok {
+		return m
+	}
+	m := map[ast.Node]ast.Node{}
+	var stack []ast.Node
+	ast.Inspect(file, func(n ast.Node) bool {
+		if n == nil {
+			stack = stack[:len(stack)-1]
+			return true
+		}
+		if len(stack) > 0 {
+			m[n] = stack[len(stack)-1]
+		}
+		stack = append(stack, n)
+		return true
+	})
+	v.pars[file] = m
+	return m
+}
+
+// parentsOfNode returns the parent map of the file that contains node n.
+func (v *pbfPkgView) parentsOfNode(n ast.Node) map[ast.Node]ast.Node {
+	for _, fi := range v.funcs {
+		if fi.Decl.Pos() <= n.Pos() && n.End() <= fi.Decl.End() {
+			return v.parents(fi)
+		}
+	}
+	return map[ast.Node]ast.Node{}
+}
+
+// rel renders a position as file:line (base name of the file).
+func (v *pbfPkgView) rel(pos token.Pos) string {
+	if !pos.IsValid() {
+		return "-"
+	}
+	ps := v.fset.Position(pos)
+	return fmt.Sprintf("%s:%d", filepath.Base(ps.Filename), ps.Line)
+}
+
+// goSite is one go statement of the spawner (or of a helper the spawner calls).
 type goSite struct {
 	stmt   *ast.GoStmt
-	lit    *ast.FuncLit
+	lit    *ast.FuncLit // the closure, or a literal synthesised from decl (go f(args))
 	role   string
-	inLoop *ast.ForStmt
+	inLoop *ast.ForStmt // innermost for loop (in the spawner or in the helper holding the statement) that repeats it
+	decl   *FuncInfo    // the declared function started by `go f(args)`; nil for a closure
+	unit   *unit        // the goroutine's unit (== model.units[lit])
+	host   *FuncInfo    // function that lexically contains the go statement
+	// rootPos is the position inside the root spawner at which the goroutine is started: the go statement
+	// itself, or the spawner's call to the helper that holds it.
+	rootPos token.Pos
 }
 
 // unit is a body executed by one goroutine role: a function declaration (without its go closures)
-// or a go closure (with its nested deferred closures).
+// or a goroutine body (with its nested deferred closures).
 type unit struct {
 	node  ast.Node // *ast.FuncDecl or *ast.FuncLit
 	body  *ast.BlockStmt
-	fi    *FuncInfo // enclosing declaration
+	fi    *FuncInfo // enclosing declaration (for a `go f(args)` unit: the declaration of f)
 	name  string
 	calls []*types.Func // static callees inside the package
 	roles map[string]bool
 	// for roles reached from the spawner's own body: position of the call site in the spawner
 	initPos map[token.Pos]bool
+	goSite  *goSite // non-nil for goroutine bodies
+}
+
+// pbfCallSite is one static call of a declared function.
+type pbfCallSite struct {
+	call   *ast.CallExpr
+	u      *unit
+	isGo   bool
+	defer_ bool // the call is the call of a defer statement
 }
 
 func (m *pbfModel) fail(format string, args ...interface{}) {
@@ -78,8 +192,22 @@ func getPBFModel(p *core.Program) *pbfModel {
 	return m
 }
 
+func pbfRecvNamed(fn *types.Func) *types.Named {
+	recv := fn.Type().(*types.Signature).Recv()
+	if recv == nil {
+		return nil
+	}
+	t := recv.Type()
+	if pt, ok := t.(*types.Pointer); ok {
+		t = pt.Elem()
+	}
+	nt, _ := t.(*types.Named)
+	return nt
+}
+
 func buildPBFModel(p *core.Program) *pbfModel {
-	m := &pbfModel{p: p, units: map[ast.Node]*unit{}}
+	m := &pbfModel{p: p, units: map[ast.Node]*unit{}, byDecl: map[*types.Func]*unit{},
+		sites: map[*types.Func][]*pbfCallSite{}, goCalls: map[*ast.CallExpr]*goSite{}}
 	m.pk = p.Pkg("osmpbf")
 	if m.pk == nil {
 		m.fail("package osmpbf not loaded")
@@ -91,80 +219,173 @@ func buildPBFModel(p *core.Program) *pbfModel {
 		m.fail("type osmpbf.Scanner")
 		return m
 	}
-	// spawner: the method with go statements
-	for _, fi := range allFuncs(m.pk) {
+	all := allFuncs(m.pk)
+	m.view = newPkgView(m.pk)
+	m.funcs = m.view.funcs
+	// units for every declared function
+	for _, fi := range all {
+		u := &unit{node: fi.Decl, body: fi.Decl.Body, fi: fi, name: fi.Name(), roles: map[string]bool{}, initPos: map[token.Pos]bool{}}
+		m.units[fi.Decl] = u
+		m.byDecl[fi.Obj] = u
+	}
+	// go statements anywhere in the package
+	var hosts []*FuncInfo
+	for _, fi := range all {
+		fi := fi
+		par := parentsOf(p, fi)
 		n := 0
 		ast.Inspect(fi.Decl.Body, func(x ast.Node) bool {
-			if _, ok := x.(*ast.GoStmt); ok {
-				n++
+			gs, ok := x.(*ast.GoStmt)
+			if !ok {
+				return true
 			}
+			n++
+			g := &goSite{stmt: gs, host: fi, rootPos: gs.Pos()}
+			switch fun := ast.Unparen(gs.Call.Fun).(type) {
+			case *ast.FuncLit:
+				g.lit = fun
+			default:
+				fn := callee(m.info, gs.Call)
+				if fn == nil || m.funcs[fn] == nil {
+					m.fail("go statement at %s starts neither a function literal nor a function declared in the package", p.Rel(gs.Pos()))
+					return true
+				}
+				g.decl = m.funcs[fn]
+				g.lit = &ast.FuncLit{Type: g.decl.Decl.Type, Body: g.decl.Decl.Body}
+			}
+			if l := enclosing(par, gs, func(n ast.Node) bool { _, ok := n.(*ast.ForStmt); return ok }); l != nil {
+				g.inLoop = l.(*ast.ForStmt)
+			}
+			if enclosing(par, gs, func(n ast.Node) bool { _, ok := n.(*ast.RangeStmt); return ok }) != nil {
+				m.fail("go statement inside a range loop at %s", p.Rel(gs.Pos()))
+			}
+			if lit := enclosing(par, gs, func(n ast.Node) bool { _, ok := n.(*ast.FuncLit); return ok }); lit != nil {
+				m.fail("go statement nested in a function literal at %s", p.Rel(gs.Pos()))
+			}
+			m.gos = append(m.gos, g)
+			m.goCalls[gs.Call] = g
 			return true
 		})
 		if n > 0 {
-			if m.start != nil {
-				m.fail("more than one function with go statements: %s and %s", m.start.Name(), fi.Name())
-			}
-			m.start = fi
+			hosts = append(hosts, fi)
 		}
 	}
-	if m.start == nil {
+	if len(hosts) == 0 {
 		m.fail("no function with go statements in osmpbf (the spawner)")
 		return m
 	}
-	if recv := m.start.Obj.Type().(*types.Signature).Recv(); recv != nil {
-		t := recv.Type()
-		if pt, ok := t.(*types.Pointer); ok {
-			t = pt.Elem()
+	// goroutine units
+	for _, g := range m.gos {
+		if g.decl != nil {
+			if old := m.byDecl[g.decl.Obj]; old != nil && old.goSite != nil {
+				m.fail("function %s is started by more than one go statement", g.decl.Name())
+				continue
+			}
+			u := &unit{node: g.lit, body: g.decl.Decl.Body, fi: g.decl, roles: map[string]bool{}, initPos: map[token.Pos]bool{}, goSite: g}
+			m.view.goBody[g.decl.Obj] = true
+			delete(m.units, g.decl.Decl)
+			m.units[g.lit] = u
+			m.byDecl[g.decl.Obj] = u
+			g.unit = u
+		} else {
+			u := &unit{node: g.lit, body: g.lit.Body, fi: g.host, roles: map[string]bool{}, initPos: map[token.Pos]bool{}, goSite: g}
+			m.units[g.lit] = u
+			g.unit = u
 		}
-		m.decoderT, _ = t.(*types.Named)
 	}
+	if len(m.errs) > 0 {
+		return m
+	}
+	// static calls per unit, call sites per function
+	for _, u := range m.units {
+		u := u
+		par := parentsOf(p, u.fi)
+		m.walkUnit(u, func(n ast.Node) bool {
+			call, ok := n.(*ast.CallExpr)
+			if !ok {
+				return true
+			}
+			fn := callee(m.info, call)
+			if fn == nil || fn.Pkg() != m.pk.Types {
+				return true
+			}
+			_, isGo := m.goCalls[call]
+			if !isGo {
+				u.calls = append(u.calls, fn)
+			}
+			if m.funcs[fn] != nil {
+				ds, _ := par[call].(*ast.DeferStmt)
+				m.sites[fn] = append(m.sites[fn], &pbfCallSite{call: call, u: u, isGo: isGo, defer_: ds != nil && ds.Call == call})
+			}
+			return true
+		})
+	}
+	// a function started as a goroutine must not also be called synchronously (its body would belong to two threads)
+	for _, g := range m.gos {
+		if g.decl == nil {
+			continue
+		}
+		for _, s := range m.sites[g.decl.Obj] {
+			if !s.isGo {
+				m.fail("%s is started as a goroutine and also called synchronously at %s", g.decl.Name(), p.Rel(s.call.Pos()))
+			}
+		}
+	}
+	// the root spawner: the host that reaches every other host
+	for _, h := range hosts {
+		all := true
+		for _, o := range hosts {
+			if o != h && !m.unitReaches(m.byDecl[h.Obj], func(x *unit) bool { return x == m.byDecl[o.Obj] }) {
+				all = false
+			}
+		}
+		if all {
+			if m.start != nil && len(hosts) > 1 {
+				m.fail("more than one root function with go statements: %s and %s", m.start.Name(), h.Name())
+			}
+			m.start = h
+		}
+	}
+	if m.start == nil {
+		m.fail("the functions with go statements are not reached from one spawner")
+		return m
+	}
+	m.decoderT = pbfRecvNamed(m.start.Obj)
 	if m.decoderT == nil {
 		m.fail("spawner %s is not a method", m.start.Name())
 		return m
 	}
-	// units for every declared function
-	for _, fi := range allFuncs(m.pk) {
-		u := &unit{node: fi.Decl, body: fi.Decl.Body, fi: fi, name: fi.Name(), roles: map[string]bool{}, initPos: map[token.Pos]bool{}}
-		m.units[fi.Decl] = u
-	}
-	// go sites
-	par := parentsOf(p, m.start)
-	ast.Inspect(m.start.Decl.Body, func(x ast.Node) bool {
-		gs, ok := x.(*ast.GoStmt)
-		if !ok {
-			return true
+	// go statements in helpers of the spawner: position in the root, loop of the call chain
+	for _, g := range m.gos {
+		if g.host == m.start {
+			continue
 		}
-		lit, ok := gs.Call.Fun.(*ast.FuncLit)
-		if !ok {
-			m.fail("go statement at %s does not start a function literal", p.Rel(gs.Pos()))
-			return true
-		}
-		g := &goSite{stmt: gs, lit: lit}
-		if l := enclosing(par, gs, func(n ast.Node) bool { _, ok := n.(*ast.ForStmt); return ok }); l != nil {
-			g.inLoop = l.(*ast.ForStmt)
-		}
-		if enclosing(par, gs, func(n ast.Node) bool { _, ok := n.(*ast.RangeStmt); return ok }) != nil {
-			m.fail("go statement inside a range loop at %s", p.Rel(gs.Pos()))
-		}
-		m.gos = append(m.gos, g)
-		m.units[lit] = &unit{node: lit, body: lit.Body, fi: m.start, roles: map[string]bool{}, initPos: map[token.Pos]bool{}}
-		return true
-	})
-	// static calls per unit
-	for _, u := range m.units {
-		u := u
-		m.walkUnit(u, func(n ast.Node) bool {
-			if call, ok := n.(*ast.CallExpr); ok {
-				if fn := callee(m.info, call); fn != nil && fn.Pkg() == m.pk.Types {
-					u.calls = append(u.calls, fn)
+		found := false
+		m.deepWalk(m.byDecl[m.start.Obj], func(s *pbfSite, n ast.Node) bool {
+			if n != ast.Node(g.stmt) {
+				return true
+			}
+			found = true
+			g.rootPos = s.rootPos(n)
+			if g.inLoop == nil {
+				for i := len(s.frames) - 2; i >= 0 && g.inLoop == nil; i-- {
+					fr := s.frames[i]
+					par := parentsOf(p, fr.u.fi)
+					if l := enclosing(par, fr.link, func(n ast.Node) bool { _, ok := n.(*ast.ForStmt); return ok }); l != nil {
+						g.inLoop = l.(*ast.ForStmt)
+					}
 				}
 			}
 			return true
 		})
+		if !found {
+			m.fail("go statement at %s is not reached from the spawner %s", p.Rel(g.stmt.Pos()), m.start.Name())
+		}
 	}
-	// roles of the closures
+	sort.SliceStable(m.gos, func(i, j int) bool { return m.gos[i].stmt.Pos() < m.gos[j].stmt.Pos() })
+	// roles of the goroutines
 	for _, g := range m.gos {
-		u := m.units[g.lit]
+		u := g.unit
 		switch {
 		case g.inLoop != nil:
 			g.role = "worker"
@@ -176,8 +397,8 @@ func buildPBFModel(p *core.Program) *pbfModel {
 		u.name = m.start.Name() + "$" + g.role
 		m.propagate(u, g.role, token.NoPos)
 	}
-	// consumer: exported methods of Scanner and New
-	for _, fi := range allFuncs(m.pk) {
+	// consumer: exported methods of Scanner and exported functions
+	for _, fi := range all {
 		isEntry := false
 		if recv := fi.Obj.Type().(*types.Signature).Recv(); recv != nil {
 			if namedPath(recv.Type()) == namedPath(m.scannerT) && fi.Obj.Exported() {
@@ -187,7 +408,7 @@ func buildPBFModel(p *core.Program) *pbfModel {
 			isEntry = true
 		}
 		if isEntry {
-			m.propagate(m.units[fi.Decl], "consumer", token.NoPos)
+			m.propagate(m.byDecl[fi.Obj], "consumer", token.NoPos)
 		}
 	}
 	// decoder fields: context, cancel, wait group
@@ -210,43 +431,94 @@ func buildPBFModel(p *core.Program) *pbfModel {
 	} else {
 		m.checkCtxPair()
 	}
-	// next: the decoder method Scan calls to obtain an object
+	// next: the decoder method with results (osm.Object, error) closest to Scanner.Scan
 	if scan := findFunc(m.pk, "(*Scanner).Scan"); scan != nil {
-		for _, fn := range m.units[scan.Decl].calls {
-			if fn == m.start.Obj {
-				continue
+		m.bfs(m.byDecl[scan.Obj], func(u *unit) bool {
+			if u.goSite != nil || u.fi.Obj == m.start.Obj {
+				return false
 			}
-			if recv := fn.Type().(*types.Signature).Recv(); recv != nil && namedPath(recv.Type()) == namedPath(m.decoderT) {
-				m.next = findFunc(m.pk, funcName(fn))
+			fn := u.fi.Obj
+			sig := fn.Type().(*types.Signature)
+			if nt := pbfRecvNamed(fn); nt != nil && nt == m.decoderT && sig.Results().Len() == 2 &&
+				namedPath(sig.Results().At(0).Type()) == core.ModulePath+".Object" && pbfIsError(sig.Results().At(1).Type()) {
+				m.next = u.fi
+				return true
 			}
-		}
+			return false
+		})
 	}
 	if m.next == nil {
 		m.fail("decoder method called by Scanner.Scan to fetch the next object")
 	}
-	// dataDecoder: type allocated in the worker loop
-	for _, g := range m.gos {
-		if g.role != "worker" || g.inLoop == nil {
-			continue
-		}
-		ast.Inspect(g.inLoop.Body, func(x ast.Node) bool {
-			if cl, ok := x.(*ast.CompositeLit); ok && x.Pos() < g.stmt.Pos() {
-				if nt, ok := m.info.TypeOf(cl).(*types.Named); ok && nt.Obj().Pkg() == m.pk.Types {
-					if _, isStruct := nt.Underlying().(*types.Struct); isStruct {
-						m.ddT = nt
-					}
-				}
-			}
-			return true
-		})
+	// per-worker decoder type: receiver of the decode entry
+	if e := m.decodeEntry(); e != nil {
+		m.ddT = pbfRecvNamed(e.Obj)
 	}
 	if m.ddT == nil {
-		m.fail("per-worker decoder value allocated in the worker-spawning loop")
+		m.fail("per-worker decoder (the receiver of the method returning ([]osm.Object, error) that the worker goroutine calls)")
 	}
 	return m
 }
 
-// checkCtxPair verifies that ctxField/cancelField are initialised together from one context.WithCancel call.
+func pbfIsError(t types.Type) bool {
+	return types.Identical(t, types.Universe.Lookup("error").Type())
+}
+
+// decodeEntry returns the per-worker decoder method that turns one blob into objects: the function with results
+// ([]osm.Object, error) that is closest (in calls) to the worker goroutine, found through helper calls.
+func (m *pbfModel) decodeEntry() *FuncInfo {
+	if m.entry != nil {
+		return m.entry
+	}
+	wg := m.goOf("worker")
+	if wg == nil {
+		return nil
+	}
+	m.bfs(wg.unit, func(u *unit) bool {
+		if u.goSite != nil {
+			return false
+		}
+		fn := u.fi.Obj
+		sig := fn.Type().(*types.Signature)
+		nt := pbfRecvNamed(fn)
+		if nt == nil || nt == m.decoderT || nt.Obj().Pkg() != m.pk.Types || sig.Results().Len() != 2 || !pbfIsError(sig.Results().At(1).Type()) {
+			return false
+		}
+		sl, ok := sig.Results().At(0).Type().Underlying().(*types.Slice)
+		if !ok || namedPath(sl.Elem()) != core.ModulePath+".Object" {
+			return false
+		}
+		m.entry = u.fi
+		return true
+	})
+	return m.entry
+}
+
+// bfs visits the units reachable from u through static calls, nearest first, until visit returns true.
+func (m *pbfModel) bfs(u *unit, visit func(*unit) bool) {
+	if u == nil {
+		return
+	}
+	seen := map[*unit]bool{u: true}
+	queue := []*unit{u}
+	for len(queue) > 0 {
+		x := queue[0]
+		queue = queue[1:]
+		if visit(x) {
+			return
+		}
+		for _, fn := range x.calls {
+			if y := m.unitOfFunc(fn); y != nil && !seen[y] {
+				seen[y] = true
+				queue = append(queue, y)
+			}
+		}
+	}
+}
+
+// checkCtxPair verifies that ctxField/cancelField are initialised together from one context.WithCancel call:
+// either `c, cancel := context.WithCancel(..)` feeding a composite literal of the decoder, or
+// `dec.ctx, dec.cancel = context.WithCancel(..)`.
 func (m *pbfModel) checkCtxPair() {
 	ok := false
 	for _, fi := range allFuncs(m.pk) {
@@ -259,28 +531,49 @@ func (m *pbfModel) checkCtxPair() {
 			if !isCall || !isPkgFunc(callee(m.info, call), "context", "WithCancel") {
 				return true
 			}
+			if fieldOf(m.info, as.Lhs[0]) == m.ctxField && fieldOf(m.info, as.Lhs[1]) == m.cancelField {
+				ok = true
+				return true
+			}
 			c, cancel := objOf(m.info, as.Lhs[0]), objOf(m.info, as.Lhs[1])
-			// a composite literal of the decoder type in the same function must use them for the two fields
+			if c == nil || cancel == nil {
+				return true
+			}
+			// a composite literal of the decoder type in the same function must use them for the two fields,
+			// or the two fields are assigned from them
 			var gotCtx, gotCancel bool
 			ast.Inspect(fi.Decl.Body, func(y ast.Node) bool {
-				cl, isCl := y.(*ast.CompositeLit)
-				if !isCl || namedPath(m.info.TypeOf(cl)) != namedPath(m.decoderT) {
-					return true
-				}
-				for _, e := range cl.Elts {
-					kv, isKV := e.(*ast.KeyValueExpr)
-					if !isKV {
-						continue
+				switch z := y.(type) {
+				case *ast.CompositeLit:
+					if namedPath(m.info.TypeOf(z)) != namedPath(m.decoderT) {
+						return true
 					}
-					k, _ := kv.Key.(*ast.Ident)
-					if k == nil {
-						continue
+					for _, e := range z.Elts {
+						kv, isKV := e.(*ast.KeyValueExpr)
+						if !isKV {
+							continue
+						}
+						k, _ := kv.Key.(*ast.Ident)
+						if k == nil {
+							continue
+						}
+						if m.info.Uses[k] == m.ctxField && objOf(m.info, kv.Value) == c {
+							gotCtx = true
+						}
+						if m.info.Uses[k] == m.cancelField && objOf(m.info, kv.Value) == cancel {
+							gotCancel = true
+						}
 					}
-					if m.info.Uses[k] == m.ctxField && objOf(m.info, kv.Value) == c {
-						gotCtx = true
-					}
-					if m.info.Uses[k] == m.cancelField && objOf(m.info, kv.Value) == cancel {
-						gotCancel = true
+				case *ast.AssignStmt:
+					for i, l := range z.Lhs {
+						if i < len(z.Rhs) && len(z.Lhs) == len(z.Rhs) {
+							if fieldOf(m.info, l) == m.ctxField && objOf(m.info, z.Rhs[i]) == c {
+								gotCtx = true
+							}
+							if fieldOf(m.info, l) == m.cancelField && objOf(m.info, z.Rhs[i]) == cancel {
+								gotCancel = true
+							}
+						}
 					}
 				}
 				return true
@@ -296,8 +589,9 @@ func (m *pbfModel) checkCtxPair() {
 	}
 }
 
-// walkUnit visits the nodes of a unit: nested go closures are other units and are skipped;
-// other nested function literals (deferred closures) belong to the unit.
+// walkUnit visits the nodes of a unit: nested goroutine closures are other units and are skipped;
+// other nested function literals (deferred closures) belong to the unit. The call expression of a
+// `go f(args)` statement is visited (its arguments are evaluated by the unit), but f's body is another unit.
 func (m *pbfModel) walkUnit(u *unit, f func(ast.Node) bool) {
 	ast.Inspect(u.body, func(n ast.Node) bool {
 		if n == nil {
@@ -323,13 +617,10 @@ func (m *pbfModel) unitCalls(u *unit, pkgpath, name string) bool {
 	return found
 }
 
+// unitOfFunc returns the unit that executes the body of a declared function (for a function started with
+// `go f(args)` that is the goroutine's unit).
 func (m *pbfModel) unitOfFunc(fn *types.Func) *unit {
-	for _, u := range m.units {
-		if fd, ok := u.node.(*ast.FuncDecl); ok && m.info.Defs[fd.Name] == fn {
-			return u
-		}
-	}
-	return nil
+	return m.byDecl[fn]
 }
 
 func (m *pbfModel) unitReaches(u *unit, pred func(*unit) bool) bool {
@@ -394,79 +685,576 @@ func rolesOf(u *unit) []string {
 	return rs
 }
 
+// goroutineOnly reports whether the unit runs only inside pipeline goroutines (never on the caller's goroutine).
+func (u *unit) goroutineOnly() bool {
+	return len(u.roles) > 0 && !u.roles["consumer"]
+}
+
+// onlyRole reports whether role is the unit's single role.
+func (u *unit) onlyRole(role string) bool {
+	return len(u.roles) == 1 && u.roles[role]
+}
+
+// funcAt returns the declared function whose declaration spans pos.
+func (m *pbfModel) funcAt(pos token.Pos) *FuncInfo {
+	for _, fi := range m.funcs {
+		if fi.Decl.Pos() <= pos && pos < fi.Decl.End() {
+			return fi
+		}
+	}
+	return nil
+}
+
+// ---- control-flow graphs ----
+
+type pbfCFG struct {
+	g   *cfg.CFG
+	dom map[*cfg.Block]map[*cfg.Block]bool
+}
+
+// cfgOf returns the (cached) CFG and dominator sets of a function body.
+func (v *pbfPkgView) cfgOf(body *ast.BlockStmt) *pbfCFG {
+	if c, ok := v.cfgs[body]; ok {
+		return c
+	}
+	g := newCFG(v.info, body)
+	c := &pbfCFG{g: g, dom: dominators(g)}
+	v.cfgs[body] = c
+	return c
+}
+
+func (m *pbfModel) cfgOf(body *ast.BlockStmt) *pbfCFG { return m.view.cfgOf(body) }
+
+// exits returns the live blocks from which the function returns (return statement or falling off the end);
+// blocks that end in a call that never returns are not exits.
+func (c *pbfCFG) exits(info *types.Info) []*cfg.Block {
+	var out []*cfg.Block
+	for _, b := range c.g.Blocks {
+		if !b.Live || len(b.Succs) > 0 || b.Kind == cfg.KindSelectAfterCase {
+			continue // (the fall-through block of a select without default is never left: the select blocks)
+		}
+		if len(b.Nodes) > 0 {
+			if es, ok := b.Nodes[len(b.Nodes)-1].(*ast.ExprStmt); ok {
+				if call, ok := es.X.(*ast.CallExpr); ok && builtinName(info, call) == "panic" {
+					continue
+				}
+			}
+		}
+		out = append(out, b)
+	}
+	return out
+}
+
+// inCycle reports whether block b can reach itself.
+func pbfInCycle(b *cfg.Block) bool {
+	return reachableFrom(b.Succs, nil)[b]
+}
+
+// mustExec reports whether node n (a statement directly in body, not inside a nested function literal) is executed
+// exactly once on every complete execution of body: its block dominates every exit and is not part of a cycle.
+// For a defer statement this means the deferred call runs exactly once, when body returns.
+func (m *pbfModel) mustExec(body *ast.BlockStmt, n ast.Node) bool { return m.view.mustExec(body, n) }
+
+func (v *pbfPkgView) mustExec(body *ast.BlockStmt, n ast.Node) bool {
+	m := v
+	c := m.cfgOf(body)
+	b, _ := blockOf(c.g, n.Pos())
+	if b == nil || !b.Live || pbfInCycle(b) {
+		return false
+	}
+	for _, x := range c.exits(m.info) {
+		if !c.dom[x][b] {
+			return false
+		}
+	}
+	return true
+}
+
+// ---- deep walking: a unit together with the helpers it calls ----
+
+// pbfFrame is one level of a deep site: a function body and the node in it (call, defer statement or function
+// literal) that leads to the next level.
+type pbfFrame struct {
+	u        *unit
+	body     *ast.BlockStmt
+	link     ast.Node // nil in the innermost frame
+	deferred bool     // link is a defer statement (its callee runs when body returns)
+}
+
+// pbfSite locates a node found by deepWalk: the chain of frames from the root unit to the function body that
+// lexically contains the node.
+type pbfSite struct {
+	frames []pbfFrame
+}
+
+// unit returns the unit that lexically contains the node.
+func (s *pbfSite) unit() *unit { return s.frames[len(s.frames)-1].u }
+
+// body returns the innermost function body containing the node.
+func (s *pbfSite) body() *ast.BlockStmt { return s.frames[len(s.frames)-1].body }
+
+// rootPos maps the node to a position in the root unit's own body: the node itself, or the root's statement
+// that leads to it.
+func (s *pbfSite) rootPos(n ast.Node) token.Pos {
+	if len(s.frames) > 1 {
+		return s.frames[0].link.Pos()
+	}
+	return n.Pos()
+}
+
+// deferredCtx reports whether the node runs in a deferred context of the root (some level of the chain is a defer).
+func (s *pbfSite) deferredCtx() bool {
+	for _, f := range s.frames {
+		if f.deferred {
+			return true
+		}
+	}
+	return false
+}
+
+// deepWalk visits the nodes of root and, through static calls (plain or deferred), the bodies of the declared
+// functions of the package it reaches (each once; recursion is cut). Goroutine bodies started from root are
+// other units and are not entered. Function literals are entered as a frame of their own.
+func (m *pbfModel) deepWalk(root *unit, f func(s *pbfSite, n ast.Node) bool) {
+	m.deepWalkOpt(root, false, f)
+}
+
+// deepWalkOpt is deepWalk; with perPath a helper is entered once per call site (call path) instead of once in all,
+// so that code shared by several callers is seen in each calling context.
+func (m *pbfModel) deepWalkOpt(root *unit, perPath bool, f func(s *pbfSite, n ast.Node) bool) {
+	seen := map[*unit]bool{root: true}
+	var walkBody func(u *unit, body *ast.BlockStmt, frames []pbfFrame)
+	walkBody = func(u *unit, body *ast.BlockStmt, frames []pbfFrame) {
+		site := &pbfSite{frames: append(append([]pbfFrame{}, frames...), pbfFrame{u: u, body: body})}
+		par := parentsOf(m.p, u.fi)
+		ast.Inspect(body, func(n ast.Node) bool {
+			if n == nil {
+				return true
+			}
+			if lit, ok := n.(*ast.FuncLit); ok {
+				if _, isGo := m.units[lit]; isGo {
+					return false
+				}
+				// nested literal: its own frame; deferred when it is the callee of a defer statement
+				link := ast.Node(lit)
+				deferred := false
+				if call, ok := par[lit].(*ast.CallExpr); ok && ast.Unparen(call.Fun) == ast.Expr(lit) {
+					link = call
+					if ds, ok := par[call].(*ast.DeferStmt); ok {
+						link, deferred = ds, true
+					}
+				}
+				if !f(site, n) {
+					return false
+				}
+				walkBody(u, lit.Body, append(append([]pbfFrame{}, frames...), pbfFrame{u: u, body: body, link: link, deferred: deferred}))
+				return false
+			}
+			if !f(site, n) {
+				return false
+			}
+			if call, ok := n.(*ast.CallExpr); ok {
+				if _, isGo := m.goCalls[call]; isGo {
+					return true
+				}
+				fn := callee(m.info, call)
+				if fn == nil || m.funcs[fn] == nil {
+					return true
+				}
+				tu := m.byDecl[fn]
+				if tu == nil || tu.goSite != nil || seen[tu] {
+					return true
+				}
+				seen[tu] = true
+				if perPath {
+					defer delete(seen, tu)
+				}
+				link := ast.Node(call)
+				deferred := false
+				if ds, ok := par[call].(*ast.DeferStmt); ok && ds.Call == call {
+					link, deferred = ds, true
+				}
+				walkBody(tu, tu.body, append(append([]pbfFrame{}, frames...), pbfFrame{u: u, body: body, link: link, deferred: deferred}))
+			}
+			return true
+		})
+	}
+	walkBody(root, root.body, nil)
+}
+
+// mustExecDeep reports whether node n at site s is executed exactly once on every complete execution of the root
+// unit: every link of the chain and n itself are must-exec in their function body.
+func (m *pbfModel) mustExecDeep(s *pbfSite, n ast.Node) bool {
+	for i, fr := range s.frames {
+		x := fr.link
+		if i == len(s.frames)-1 {
+			x = n
+		}
+		if !m.mustExec(fr.body, x) {
+			return false
+		}
+	}
+	return true
+}
+
+// ---- definitions of local variables and parameters ----
+
+// pbfOrigin is one defining expression of a variable.
+type pbfOrigin struct {
+	kind string   // "assign", "result" (idx-th result of call e), "range-key", "range-value" (of range over e), "recv" (v, ok := <-e: idx 0/1), "arg" (argument bound to a parameter), "zero" (var without value), "unknown"
+	e    ast.Expr // defining expression
+	idx  int
+	fi   *FuncInfo // function that lexically contains e
+	stmt ast.Node  // the defining statement
+}
+
+// defsOf lists every definition of a local variable or parameter o: for a local every assignment in its function,
+// for a parameter (or receiver) of a declared function the argument at every static call site.
+func (m *pbfModel) defsOf(o types.Object) []pbfOrigin {
+	v, ok := o.(*types.Var)
+	if !ok || v.IsField() {
+		return nil
+	}
+	fi := m.funcAt(o.Pos())
+	if fi == nil {
+		return nil
+	}
+	var out []pbfOrigin
+	// parameter or receiver of fi?
+	isParam := false
+	if fi.Decl.Recv != nil {
+		for _, fld := range fi.Decl.Recv.List {
+			for _, nm := range fld.Names {
+				if m.info.Defs[nm] == o {
+					isParam = true
+				}
+			}
+		}
+	}
+	if c01ParamIndex(m.info, fi, o) >= 0 {
+		isParam = true
+	}
+	if isParam {
+		for _, s := range m.sites[fi.Obj] {
+			if a := argForParam(m.info, fi, s.call, o); a != nil {
+				out = append(out, pbfOrigin{kind: "arg", e: a, fi: s.u.fi, stmt: s.call})
+			} else {
+				out = append(out, pbfOrigin{kind: "unknown", fi: s.u.fi, stmt: s.call})
+			}
+		}
+	}
+	// parameter of a function literal: bound by the call when the literal is invoked on the spot
+	// (`go func(a T) {...}(x)`, `defer func(a T) {...}(x)`, `func(a T) {...}(x)`), unknown otherwise
+	ast.Inspect(fi.Decl.Body, func(n ast.Node) bool {
+		lit, ok := n.(*ast.FuncLit)
+		if !ok || lit.Type.Params == nil {
+			return true
+		}
+		idx, pi := -1, 0
+		for _, fld := range lit.Type.Params.List {
+			for _, nm := range fld.Names {
+				if m.info.Defs[nm] == o {
+					idx = pi
+				}
+				pi++
+			}
+		}
+		if idx < 0 {
+			return true
+		}
+		par := m.view.parents(fi)
+		if call, ok := par[lit].(*ast.CallExpr); ok && ast.Unparen(call.Fun) == ast.Expr(lit) && idx < len(call.Args) && !call.Ellipsis.IsValid() {
+			out = append(out, pbfOrigin{kind: "arg", e: call.Args[idx], fi: fi, stmt: call})
+		} else {
+			out = append(out, pbfOrigin{kind: "unknown", fi: fi, stmt: lit})
+		}
+		return true
+	})
+	ast.Inspect(fi.Decl.Body, func(n ast.Node) bool {
+		switch s := n.(type) {
+		case *ast.AssignStmt:
+			for i, l := range s.Lhs {
+				id, ok := ast.Unparen(l).(*ast.Ident)
+				if !ok || (m.info.Defs[id] != o && m.info.Uses[id] != o) {
+					continue
+				}
+				switch {
+				case s.Tok != token.ASSIGN && s.Tok != token.DEFINE:
+					out = append(out, pbfOrigin{kind: "unknown", e: s.Rhs[0], fi: fi, stmt: s}) // op-assignment
+				case len(s.Lhs) == len(s.Rhs):
+					out = append(out, pbfOrigin{kind: "assign", e: s.Rhs[i], fi: fi, stmt: s})
+				case len(s.Rhs) == 1:
+					rhs := ast.Unparen(s.Rhs[0])
+					if ue, ok := rhs.(*ast.UnaryExpr); ok && ue.Op == token.ARROW {
+						out = append(out, pbfOrigin{kind: "recv", e: ue.X, idx: i, fi: fi, stmt: s})
+					} else if _, ok := rhs.(*ast.CallExpr); ok {
+						out = append(out, pbfOrigin{kind: "result", e: rhs, idx: i, fi: fi, stmt: s})
+					} else {
+						out = append(out, pbfOrigin{kind: "unknown", e: rhs, idx: i, fi: fi, stmt: s})
+					}
+				}
+			}
+		case *ast.IncDecStmt:
+			if id, ok := ast.Unparen(s.X).(*ast.Ident); ok && m.info.Uses[id] == o {
+				out = append(out, pbfOrigin{kind: "unknown", e: s.X, fi: fi, stmt: s})
+			}
+		case *ast.ValueSpec:
+			for i, nm := range s.Names {
+				if m.info.Defs[nm] != o {
+					continue
+				}
+				switch {
+				case len(s.Values) == 0:
+					out = append(out, pbfOrigin{kind: "zero", fi: fi, stmt: s})
+				case len(s.Values) == len(s.Names):
+					out = append(out, pbfOrigin{kind: "assign", e: s.Values[i], fi: fi, stmt: s})
+				default:
+					out = append(out, pbfOrigin{kind: "result", e: s.Values[0], idx: i, fi: fi, stmt: s})
+				}
+			}
+		case *ast.RangeStmt:
+			if s.Key != nil && objOf(m.info, s.Key) == o {
+				out = append(out, pbfOrigin{kind: "range-key", e: s.X, fi: fi, stmt: s})
+			}
+			if s.Value != nil && objOf(m.info, s.Value) == o {
+				out = append(out, pbfOrigin{kind: "range-value", e: s.X, fi: fi, stmt: s})
+			}
+		case *ast.UnaryExpr:
+			// address taken: the variable may be written through the pointer
+			if s.Op == token.AND {
+				if id, ok := ast.Unparen(s.X).(*ast.Ident); ok && m.info.Uses[id] == o {
+					out = append(out, pbfOrigin{kind: "unknown", e: s.X, fi: fi, stmt: s})
+				}
+			}
+		}
+		return true
+	})
+	return out
+}
+
+// returnsOf lists, for a declared function, the idx-th result expression of every return statement
+// (nil entry for a bare return of named results).
+func (m *pbfModel) returnsOf(fi *FuncInfo, idx int) []ast.Expr {
+	var out []ast.Expr
+	ast.Inspect(fi.Decl.Body, func(n ast.Node) bool {
+		switch s := n.(type) {
+		case *ast.FuncLit:
+			return false
+		case *ast.ReturnStmt:
+			if idx < len(s.Results) {
+				out = append(out, s.Results[idx])
+			} else {
+				out = append(out, nil)
+			}
+		}
+		return true
+	})
+	return out
+}
+
 // ---- channels ----
 
 // chanOp is one channel operation in the package.
 type chanOp struct {
-	kind   string // send, recv, range, close
+	kind   string // send, recv, range, close, done
 	class  string // channel class: decoder field name the channel belongs to, or "?" + text
 	expr   ast.Expr
 	pos    token.Pos
 	u      *unit
 	sel    *ast.SelectStmt // enclosing select, if the op is a comm clause
 	clause *ast.CommClause
-	defer_ bool // close inside a deferred call/closure
+	defer_ bool     // close that runs when a goroutine (or function) exits: inside a deferred call/closure, or in a helper that is only called that way
+	node   ast.Node // the send statement / receive expression / range statement / close call
 }
 
-// chanClass resolves a channel expression to the decoder field it belongs to.
+// chanClass resolves a channel expression to the decoder field it belongs to: directly (`dec.F`, `dec.F[i]`),
+// through locals (`x := dec.F[i]`, `for _, x := range dec.F`, `x := make(..)` with `dec.F = append(dec.F, x)`),
+// and through parameters (the argument at every call / go statement of the function).
 func (m *pbfModel) chanClass(u *unit, e ast.Expr) string {
-	e = ast.Unparen(e)
-	switch x := e.(type) {
-	case *ast.SelectorExpr:
-		if f := fieldOf(m.info, x); f != nil {
-			return f.Name()
-		}
-	case *ast.IndexExpr:
-		if f := fieldOf(m.info, x.X); f != nil {
-			return f.Name()
-		}
-	case *ast.Ident:
-		o := objOf(m.info, x)
-		if o == nil {
-			break
-		}
-		// find the defining assignment / range / append-into-field anywhere in the spawner
-		cls := ""
-		ast.Inspect(m.start.Decl, func(n ast.Node) bool {
-			switch s := n.(type) {
-			case *ast.AssignStmt:
-				for i, l := range s.Lhs {
-					if objOf(m.info, l) == o && i < len(s.Rhs) {
-						if ix, ok := ast.Unparen(s.Rhs[i]).(*ast.IndexExpr); ok {
-							if f := fieldOf(m.info, ix.X); f != nil {
-								cls = f.Name()
-							}
-						}
-					}
-					// dec.F = append(dec.F, o)
-					if f := fieldOf(m.info, l); f != nil && i < len(s.Rhs) {
-						if call, ok := s.Rhs[i].(*ast.CallExpr); ok && builtinName(m.info, call) == "append" {
-							for _, a := range call.Args[1:] {
-								if objOf(m.info, a) == o {
-									cls = f.Name()
-								}
-							}
-						}
-					}
-				}
-			case *ast.RangeStmt:
-				if s.Value != nil && objOf(m.info, s.Value) == o {
-					if f := fieldOf(m.info, s.X); f != nil {
-						cls = f.Name()
-					}
-				}
-			}
-			return true
-		})
-		if cls != "" {
-			return cls
+	if cls := m.classesOf(e, map[types.Object]bool{}); len(cls) == 1 {
+		for c := range cls {
+			return c
 		}
 	}
 	return "?" + src(m.p.Fset, e)
 }
 
+func (m *pbfModel) classesOf(e ast.Expr, seen map[types.Object]bool) map[string]bool {
+	out := map[string]bool{}
+	add := func(s map[string]bool) {
+		for k := range s {
+			out[k] = true
+		}
+	}
+	e = ast.Unparen(e)
+	switch x := e.(type) {
+	case *ast.SelectorExpr:
+		if f := fieldOf(m.info, x); f != nil {
+			out[f.Name()] = true
+		}
+	case *ast.IndexExpr:
+		add(m.classesOf(x.X, seen))
+	case *ast.CallExpr:
+		// conversion to a directional channel type
+		if tv, ok := m.info.Types[x.Fun]; ok && tv.IsType() && len(x.Args) == 1 {
+			add(m.classesOf(x.Args[0], seen))
+		}
+	case *ast.Ident:
+		o := objOf(m.info, x)
+		if o == nil || seen[o] {
+			break
+		}
+		seen[o] = true
+		defer delete(seen, o)
+		for _, d := range m.defsOf(o) {
+			switch d.kind {
+			case "assign", "arg", "range-value":
+				add(m.classesOf(d.e, seen))
+			}
+		}
+		// appended into a field: dec.F = append(dec.F, o)
+		if fi := m.funcAt(o.Pos()); fi != nil {
+			ast.Inspect(fi.Decl.Body, func(n ast.Node) bool {
+				as, ok := n.(*ast.AssignStmt)
+				if !ok || len(as.Lhs) != len(as.Rhs) {
+					return true
+				}
+				for i, l := range as.Lhs {
+					f := fieldOf(m.info, l)
+					if f == nil {
+						continue
+					}
+					if call, ok := ast.Unparen(as.Rhs[i]).(*ast.CallExpr); ok && builtinName(m.info, call) == "append" && len(call.Args) >= 2 {
+						for _, a := range call.Args[1:] {
+							if objOf(m.info, a) == o {
+								out[f.Name()] = true
+							}
+						}
+					}
+				}
+				return true
+			})
+		}
+	}
+	return out
+}
+
+// isCtxDone reports whether e is `<-C.Done()` where C is the decoder's cancellable context (the field, or a local /
+// parameter that holds it); strict reports whether C is provably the decoder's context field.
+func (m *pbfModel) isCtxDoneRecv(e ast.Expr) (isDone, strict bool) {
+	ue, ok := ast.Unparen(e).(*ast.UnaryExpr)
+	if !ok || ue.Op != token.ARROW {
+		return false, false
+	}
+	return m.isCtxDoneChan(ue.X, map[types.Object]bool{})
+}
+
+func (m *pbfModel) isCtxDoneChan(e ast.Expr, seen map[types.Object]bool) (isDone, strict bool) {
+	e = ast.Unparen(e)
+	if id, ok := e.(*ast.Ident); ok {
+		// done := dec.ctx.Done()
+		o := objOf(m.info, id)
+		if o == nil || seen[o] {
+			return false, false
+		}
+		seen[o] = true
+		defer delete(seen, o)
+		defs := m.defsOf(o)
+		if len(defs) == 0 {
+			return false, false
+		}
+		all, allStrict := true, true
+		for _, d := range defs {
+			if d.kind != "assign" && d.kind != "arg" {
+				return false, false
+			}
+			dn, st := m.isCtxDoneChan(d.e, seen)
+			all = all && dn
+			allStrict = allStrict && st
+		}
+		return all, all && allStrict
+	}
+	call, ok := e.(*ast.CallExpr)
+	if !ok || !isMethod(callee(m.info, call), "context.Context", "Done") {
+		return false, false
+	}
+	sel, ok := call.Fun.(*ast.SelectorExpr)
+	if !ok {
+		return true, false
+	}
+	return true, m.isDecoderCtx(sel.X, map[types.Object]bool{})
+}
+
+// isDecoderCtx reports whether e denotes the decoder's cancellable context: the field itself or a local/parameter
+// that only ever holds it.
+func (m *pbfModel) isDecoderCtx(e ast.Expr, seen map[types.Object]bool) bool {
+	e = ast.Unparen(e)
+	if f := fieldOf(m.info, e); f != nil {
+		return f == m.ctxField
+	}
+	id, ok := e.(*ast.Ident)
+	if !ok {
+		return false
+	}
+	o := objOf(m.info, id)
+	if o == nil || seen[o] {
+		return false
+	}
+	seen[o] = true
+	defer delete(seen, o)
+	defs := m.defsOf(o)
+	if len(defs) == 0 {
+		return false
+	}
+	for _, d := range defs {
+		if (d.kind != "assign" && d.kind != "arg") || !m.isDecoderCtx(d.e, seen) {
+			return false
+		}
+	}
+	return true
+}
+
+// atExitOnly reports whether a declared helper only ever runs when a function returns: every call site is the call
+// of a defer statement, lies inside a deferred function literal, or lies in a helper that is itself at-exit-only.
+func (m *pbfModel) atExitOnly(u *unit, seen map[*unit]bool) bool {
+	if u == nil || u.goSite != nil || seen[u] {
+		return false
+	}
+	seen[u] = true
+	ss := m.sites[u.fi.Obj]
+	if len(ss) == 0 {
+		return false
+	}
+	for _, s := range ss {
+		if s.isGo {
+			return false
+		}
+		if s.defer_ || m.inDeferredLit(s.u, s.call) {
+			continue
+		}
+		if !m.atExitOnly(s.u, seen) {
+			return false
+		}
+	}
+	return true
+}
+
+// inDeferredLit reports whether n lies (inside unit u) under a defer statement: `defer f(n…)` or `defer func(){ … n … }()`.
+func (m *pbfModel) inDeferredLit(u *unit, n ast.Node) bool {
+	par := parentsOf(m.p, u.fi)
+	for p := par[n]; p != nil && p != u.node && p != ast.Node(u.body); p = par[p] {
+		if _, ok := p.(*ast.DeferStmt); ok {
+			return true
+		}
+	}
+	return false
+}
+
 // chanOps collects every channel operation of the package.
 func (m *pbfModel) chanOps() []*chanOp {
+	if m.opsMemo != nil {
+		return m.opsMemo
+	}
 	var ops []*chanOp
 	isChan := func(e ast.Expr) bool {
 		t := m.info.TypeOf(e)
@@ -479,13 +1267,9 @@ func (m *pbfModel) chanOps() []*chanOp {
 	for _, u := range m.sortedUnits() {
 		u := u
 		par := parentsOf(m.p, u.fi)
+		exitOnly := m.atExitOnly(u, map[*unit]bool{})
 		inDefer := func(n ast.Node) bool {
-			for p := par[n]; p != nil && p != u.node; p = par[p] {
-				if _, ok := p.(*ast.DeferStmt); ok {
-					return true
-				}
-			}
-			return false
+			return exitOnly || m.inDeferredLit(u, n)
 		}
 		commOf := func(n ast.Node) (*ast.SelectStmt, *ast.CommClause) {
 			// the op must be the Comm statement of a clause (possibly wrapped in assign/expr stmt)
@@ -506,22 +1290,18 @@ func (m *pbfModel) chanOps() []*chanOp {
 		m.walkUnit(u, func(n ast.Node) bool {
 			switch x := n.(type) {
 			case *ast.SendStmt:
-				op := &chanOp{kind: "send", expr: x.Chan, pos: x.Pos(), u: u, class: m.chanClass(u, x.Chan)}
+				op := &chanOp{kind: "send", expr: x.Chan, pos: x.Pos(), u: u, class: m.chanClass(u, x.Chan), node: x}
 				op.sel, op.clause = commOf(x)
 				ops = append(ops, op)
 			case *ast.UnaryExpr:
 				if x.Op == token.ARROW {
-					op := &chanOp{kind: "recv", expr: x.X, pos: x.Pos(), u: u}
+					op := &chanOp{kind: "recv", expr: x.X, pos: x.Pos(), u: u, node: x}
 					op.sel, op.clause = commOf(x)
-					if call, ok := ast.Unparen(x.X).(*ast.CallExpr); ok {
-						if fn := callee(m.info, call); isMethod(fn, "context.Context", "Done") {
-							op.kind = "done"
-							op.class = "ctx.Done"
-							if sel, ok := call.Fun.(*ast.SelectorExpr); ok {
-								if f := fieldOf(m.info, sel.X); f != nil && f == m.ctxField {
-									op.class = "dec.ctx.Done"
-								}
-							}
+					if isDone, strict := m.isCtxDoneRecv(x); isDone {
+						op.kind = "done"
+						op.class = "ctx.Done"
+						if strict {
+							op.class = "dec.ctx.Done"
 						}
 					}
 					if op.class == "" {
@@ -531,20 +1311,21 @@ func (m *pbfModel) chanOps() []*chanOp {
 				}
 			case *ast.RangeStmt:
 				if isChan(x.X) {
-					ops = append(ops, &chanOp{kind: "range", expr: x.X, pos: x.Pos(), u: u, class: m.chanClass(u, x.X)})
+					ops = append(ops, &chanOp{kind: "range", expr: x.X, pos: x.Pos(), u: u, class: m.chanClass(u, x.X), node: x})
 				}
 			case *ast.CallExpr:
 				if builtinName(m.info, x) == "close" && len(x.Args) == 1 {
-					ops = append(ops, &chanOp{kind: "close", expr: x.Args[0], pos: x.Pos(), u: u, class: m.chanClass(u, x.Args[0]), defer_: inDefer(x)})
+					ops = append(ops, &chanOp{kind: "close", expr: x.Args[0], pos: x.Pos(), u: u, class: m.chanClass(u, x.Args[0]), defer_: inDefer(x), node: x})
 				}
 			}
 			return true
 		})
 	}
+	m.opsMemo = ops
 	return ops
 }
 
-// hasDoneCase reports whether a select has a `<-dec.ctx.Done()` case and returns that clause.
+// doneCase returns the clause of a select that receives from the Done channel of the decoder's cancellable context.
 func (m *pbfModel) doneCase(sel *ast.SelectStmt) *ast.CommClause {
 	if sel == nil {
 		return nil
@@ -560,14 +1341,8 @@ func (m *pbfModel) doneCase(sel *ast.SelectStmt) *ast.CommClause {
 			if !ok || ue.Op != token.ARROW {
 				return true
 			}
-			call, ok := ast.Unparen(ue.X).(*ast.CallExpr)
-			if !ok || !isMethod(callee(m.info, call), "context.Context", "Done") {
-				return true
-			}
-			if s, ok := call.Fun.(*ast.SelectorExpr); ok {
-				if f := fieldOf(m.info, s.X); f != nil && f == m.ctxField {
-					found = true
-				}
+			if isDone, strict := m.isCtxDoneRecv(ue); isDone && strict {
+				found = true
 			}
 			return true
 		})
@@ -588,6 +1363,38 @@ func (m *pbfModel) isCtxErrCall(e ast.Expr) bool {
 	if !ok {
 		return false
 	}
-	f := fieldOf(m.info, s.X)
-	return f != nil && f == m.ctxField
+	return m.isDecoderCtx(s.X, map[types.Object]bool{})
+}
+
+// chanField returns the decoder field with the given channel class name.
+func (m *pbfModel) chanField(class string) *types.Var {
+	st, ok := m.decoderT.Underlying().(*types.Struct)
+	if !ok {
+		return nil
+	}
+	for i := 0; i < st.NumFields(); i++ {
+		if st.Field(i).Name() == class {
+			return st.Field(i)
+		}
+	}
+	return nil
+}
+
+// pipelineClasses returns the channel classes by role: in = what the workers receive from, out = what the workers
+// send on, queue = what the consumer receives from.
+func (m *pbfModel) pipelineClasses() (in, out, queue string) {
+	for _, op := range m.chanOps() {
+		if op.u.onlyRole("worker") {
+			if op.kind == "range" || op.kind == "recv" {
+				in = op.class
+			}
+			if op.kind == "send" {
+				out = op.class
+			}
+		}
+		if (op.kind == "recv" || op.kind == "range") && op.u.roles["consumer"] {
+			queue = op.class
+		}
+	}
+	return
 }
